@@ -14,7 +14,7 @@ PROPS["C07"] = {
                    "Ed25519->X25519 conversion is checked on seeds (stdlib- and library-generated keys) and on arbitrary/undecodable/"
                    "wrong-length public-key strings. At curve level MontgomeryPoint.Mul is compared with the unclamped RFC ladder "
                    "(and, for curve points, with Edwards scalar multiplication) on odd/even/multiple-of-L scalars, Equal with "
-                   "comparison mod p, and MulBasepoint+SetEdwards with the ladder on 9 (identity -> 0). Does not prove absence."),
+                   "comparison mod p, and MulBasepoint+SetEdwards with the ladder on 9 (identity -> 0). Does not prove absence. Also: the exported, writable x25519.Basepoint slice overwritten in place and passed to X25519 (must be refused or computed on the bytes given, never silently the result for u=9); configuration 386x64 (64-bit limbs on 32-bit words)."),
     "level_note": ("Trusted: math/big, verifref.X25519 (RFC 7748 and Wycheproof vectors, crypto/ecdh, affine group-law model), "
                    "crypto/ecdh, x/crypto/curve25519, crypto/ed25519 + crypto/sha512 for the key-conversion oracle. The exact "
                    "private key GenerateKey derives from its entropy is not documented and not asserted (only pair consistency)."),
